@@ -66,7 +66,7 @@ def check(ctx, args):
             for d, ok in results.items():
                 compared += 1
                 if not ok:
-                    ctx.fail("semantics_mismatch", pipelib.coq_detail(ctx, d, psid + ".obs"),
+                    ctx.fail(pipelib.classify_mismatch(ctx, d, psid + ".obs") or "semantics_mismatch", pipelib.coq_detail(ctx, d, psid + ".obs"),
                              {"program": os.path.basename(d), "schedule": sched, "dir": d, "psid": psid})
     # replays for failures: copy the program directories
     for f in ctx.failures:
